@@ -644,17 +644,19 @@ func (e *visEnv) execute(rq visRequest, mode string, at int) visRun {
 			note("new")
 		}
 	case mode == "window":
-		// the whole request runs between reloadConfig's two critical sections
+		// the whole request runs between two consecutive critical sections of reloadConfig:
+		// the reload is held at its sync point number `at` (0 = after the first critical section)
 		entered := make(chan struct{}, 1)
 		release = make(chan struct{})
 		done = make(chan bool, 1)
-		first := true
+		seen := 0
 		app.VerifSetSyncHook(func(point string) {
-			if first {
-				first = false
+			if seen == at {
+				run.Via = "sync-point:" + point
 				entered <- struct{}{}
 				<-release
 			}
+			seen++
 		})
 		go func() {
 			_, ok := app.VerifReload(e.newPath, e.oldC, st)
@@ -662,7 +664,6 @@ func (e *visEnv) execute(rq visRequest, mode string, at int) visRun {
 		}()
 		select {
 		case <-entered:
-			run.Via = "sync-point"
 			e.syncSeen = true
 			// only continue into the window if this sync point is NOT the last one, i.e. the reload
 			// has not finished publishing; we cannot know that here, so the check compares with "new".
@@ -743,8 +744,9 @@ func subtractMulti(after, before []string) []string {
 
 func reloadVisibility(inb []byte) (any, error) {
 	var in struct {
-		Dir       string        `json:"dir"`
-		Scenarios []visScenario `json:"scenarios"`
+		Dir        string        `json:"dir"`
+		Scenarios  []visScenario `json:"scenarios"`
+		SyncPoints int           `json:"sync_points"` // number of sync points in the overlay copy of reloadConfig
 	}
 	if err := json.Unmarshal(inb, &in); err != nil {
 		return nil, err
@@ -797,12 +799,17 @@ func reloadVisibility(inb []byte) (any, error) {
 				}
 				rr.Mixed = append(rr.Mixed, m)
 			}
-			wrun := env.execute(rq, "window", -1)
-			if wrun.Via == "sync-point" {
-				syncAvailable = true
-				rr.Mixed = append(rr.Mixed, wrun)
-			} else {
-				rr.Mixed = append(rr.Mixed, env.execute(rq, "window-halves", -1))
+			entered := false
+			for j := 0; j+1 < in.SyncPoints; j++ {
+				wrun := env.execute(rq, "window", j)
+				if strings.HasPrefix(wrun.Via, "sync-point") {
+					syncAvailable = true
+					entered = true
+					rr.Mixed = append(rr.Mixed, wrun)
+				}
+			}
+			if !entered {
+				rr.Mixed = append(rr.Mixed, env.execute(rq, "window-halves", 0))
 			}
 			res.Results = append(res.Results, rr)
 		}
@@ -928,4 +935,107 @@ func reloadMutate(inb []byte) (any, error) {
 		out = append(out, res)
 	}
 	return out, nil
+}
+
+// ---------------------------------------------------------------------------
+// reload-stress: real goroutines.  Requests run concurrently with a reloader that flips between two
+// files; every response is classified against the two single-configuration outcomes.
+
+func init() { register("reload-stress", reloadStress) }
+
+func reloadStress(inb []byte) (any, error) {
+	var in struct {
+		Dir      string   `json:"dir"`
+		Old      string   `json:"old"`
+		New      string   `json:"new"`
+		Probe    ingProbe `json:"probe"`
+		Workers  int      `json:"workers"`
+		Millis   int      `json:"millis"`
+		OldCodes []int    `json:"old_codes"` // status codes a request may get under the old / the new configuration alone
+		NewCodes []int    `json:"new_codes"`
+	}
+	if err := json.Unmarshal(inb, &in); err != nil {
+		return nil, err
+	}
+	oldC, err := app.VerifCompile([]byte(in.Old))
+	if err != nil {
+		return nil, err
+	}
+	if _, err := app.VerifCompile([]byte(in.New)); err != nil {
+		return nil, err
+	}
+	_ = os.MkdirAll(in.Dir, 0o755)
+	po, pn := filepath.Join(in.Dir, "old"), filepath.Join(in.Dir, "new")
+	_ = os.WriteFile(po, []byte(in.Old), 0o600)
+	_ = os.WriteFile(pn, []byte(in.New), 0o600)
+	st, err := app.VerifNewState(oldC, time.Now)
+	if err != nil {
+		return nil, err
+	}
+	store := queue.NewMemoryStore()
+	ing := st.Ingress(store, oldC, nopHook{})
+	stop := make(chan struct{})
+	var wg sync.WaitGroup
+	var mu sync.Mutex
+	counts := map[int]int{}
+	reloads := 0
+	wg.Add(1)
+	go func() {
+		defer wg.Done()
+		running := oldC
+		paths := []string{pn, po}
+		for i := 0; ; i++ {
+			select {
+			case <-stop:
+				return
+			default:
+			}
+			if upd, ok := app.VerifReload(paths[i%2], running, st); ok {
+				running = upd
+				reloads++
+			}
+		}
+	}()
+	for w := 0; w < in.Workers; w++ {
+		wg.Add(1)
+		go func() {
+			defer wg.Done()
+			local := map[int]int{}
+			for {
+				select {
+				case <-stop:
+					mu.Lock()
+					for k, v := range local {
+						counts[k] += v
+					}
+					mu.Unlock()
+					return
+				default:
+				}
+				rec := httptest.NewRecorder()
+				ing.ServeHTTP(rec, buildIngressRequest(in.Probe))
+				local[rec.Code]++
+			}
+		}()
+	}
+	time.Sleep(time.Duration(in.Millis) * time.Millisecond)
+	close(stop)
+	wg.Wait()
+	legal := map[int]bool{}
+	for _, c := range in.OldCodes {
+		legal[c] = true
+	}
+	for _, c := range in.NewCodes {
+		legal[c] = true
+	}
+	total, mixed := 0, 0
+	cs := map[string]int{}
+	for k, v := range counts {
+		total += v
+		cs[fmt.Sprintf("%d", k)] = v
+		if !legal[k] {
+			mixed += v
+		}
+	}
+	return map[string]any{"requests": total, "reloads": reloads, "by_status": cs, "neither_old_nor_new": mixed}, nil
 }
